@@ -42,6 +42,8 @@ MOVES_FREE = {
     'right-angles': ((90.0, 0.0, 180.0), (-3.3, 0.0, -20.0), 100.0),
     'z-only': ((0.0, 0.0, 47.0), (0.5, -0.25, 0.125), 3.7),
     'x-then-y': ((-120.0, 45.0, 0.0), (0.0, 0.0, 0.0), 1.0),
+    # the same factor 8 requested in two steps (2, then 4): coordinates AND radius carry the product
+    'two-scales': ((0.0, 0.0, 20.0), (0.1, 0.2, 0.3), 8.0),
 }
 MOVES_GND = {
     'z-far': ((0.0, 0.0, 118.9), (1234.5, -987.6, 0.0), 0.01),
@@ -90,7 +92,9 @@ def three_models(main, gname, move, tag=None):
     tg = '' if tag is None else ',%d' % tag
     # translation key 2 first on the command line, rotation key 1 second: sorting by key must rotate first
     opts = ['--geo-translate=2,%r,%r,%r%s' % (tr[0], tr[1], tr[2], tg), '--geo-rotate=1,%r,%r,%r%s' % (rot[0], rot[1], rot[2], tg)]
-    if s != 1.0:
+    if s == 8.0:
+        opts = ['--geo-scale=%r%s' % (2.0, tg), '--geo-scale=%r%s' % (4.0, tg)] + opts
+    elif s != 1.0:
         opts = ['--geo-scale=%r%s' % (s, tg)] + opts          # scaling is given first and must still be applied last
     m_opt = run_main(main, ['-f', repr(F0 / s)] + wire_args(objs) + opts + tail)
     objs2 = []
@@ -423,7 +427,7 @@ def main(args):
     ck.shadow_stats = symx.load().stats
     if ck.tier == 'quick':
         parts = [('fill_invariance', ('G2', 'far-generic')), ('fill_invariance', ('G5', 'right-angles')), ('fill_invariance', ('G4', 'x-then-y')),
-                 ('fill_invariance', ('G9', 'z-far')), ('fill_invariance', ('G8', 'z-right')), ('fill_invariance', ('G11', 'far-generic')), ('fill_invariance', ('G21', 'right-angles')), ('fill_invariance', ('G2', 'z-only', 2)),
+                 ('fill_invariance', ('G9', 'z-far')), ('fill_invariance', ('G8', 'z-right')), ('fill_invariance', ('G11', 'far-generic')), ('fill_invariance', ('G21', 'right-angles')), ('fill_invariance', ('G2', 'two-scales')), ('fill_invariance', ('G2', 'z-only', 2)),
                  ('far_field', ('G2', 'z-only')), ('far_field', ('G9', 'z-far')), ('mixed_tag', ('G2',)), ('mixed_tag', ('G5',))]
         parts += [('topology', (f, k)) for f in ('near-miss', 'fuzzy-join', 'just-apart', 'grounded') for k in ('scale',)]
         parts += [('topology', ('fuzzy-join', 'translate')), ('topology', ('grounded', 'translate')), ('topology', ('just-apart', 'rotate'))]
